@@ -61,9 +61,20 @@ def run(ctx):
             if e.k == 'bin' and e.a == 'Add':
                 inc.append((bi, th))
     true_rets = [d for d in tc.defs().get(0, []) if d[0] == 's' and d[3]['r']['k'] == 'use' and d[3]['r']['o'].get('v') == '1']
+    # `let admitted = a && b; if admitted {..}; admitted`: the verdict is returned from a bool local — "returns true" then
+    # means that local is true, and the gates are what is known when it is
+    flag_rets = []
+    if not true_rets:
+        for d in tc.defs().get(0, []):
+            if d[0] == 's' and d[3]['r']['k'] == 'use' and 'p' in d[3]['r']['o'] and len(d[3]['r']['o']['p']) == 1 and tc.local_ty(d[3]['r']['o']['p'][0]) == 'bool':
+                flag_rets.append((d, d[3]['r']['o']['p'][0]))
+        if len(flag_rets) == 1:
+            true_rets = [flag_rets[0][0]]
 
     def gated(bb):
         cs = F.dominating_conds(tc, bb)
+        if flag_rets and len(flag_rets) == 1 and bb == flag_rets[0][0][1]:
+            cs = cs + F.bool_local_conds(tc, flag_rets[0][1], True)
         t_ok = w_ok = False
         for c in cs:
             if L.cmp_is(c, L.ends('.tokens'), 'Ge', lambda e: e.const_value() is not None and e.const_value() >= 1.0):
@@ -87,7 +98,7 @@ def run(ctx):
                 L.cmp_is(c, L.ends('.requests_in_window'), 'Ge', L.ends('.max_requests')):
             fails.append(nnode)
     wblocks = set(bi for b, bi, k, th in writes_tok + writes_win if b.id == tc.id and k != 'aggregate')
-    reach = tc.reachable_from(fails) if fails else set()
+    reach = tc.reachable_tracking(fails) if fails else set()
     bad = sorted(reach & wblocks)
     ctx.ob('ADMIT-GATE', 'try_consume:denial-writes-nothing', bool(fails) and not bad, tc.where(tc.line_of_block(bad[0]) if bad else None),
            'after a failed budget test neither tokens nor requests_in_window is written' if not bad else
